@@ -383,7 +383,7 @@ impl Property for C14 {
     }
     fn cases(&self, tier: Tier) -> u64 {
         match tier {
-            Tier::Quick => 40_000,
+            Tier::Quick => 200_000,
             Tier::Thorough => 2_000_000,
         }
     }
